@@ -128,6 +128,7 @@ func body() {
 // ------------------------------------------------------------ race reports
 
 var (
+	reApplyCmd  = regexp.MustCompile(`^\(\*storeFSM\)\.apply\w+Command$`)
 	reRaceFrame = regexp.MustCompile(`^  (github\.com/influxdata/influxdb/services/meta\..*)\(\)$`)
 )
 
@@ -191,8 +192,14 @@ func raceReports() {
 							acc = append(acc, fn)
 							got = true
 						}
+						// coarser names for the two sides of the raft FSM: the
+						// command handler the access happened under (whatever
+						// helper or library frame is innermost), and the
+						// snapshot writer
 						if fn == "(*storeFSMSnapshot).Persist" {
 							acc[len(acc)-1] = "snapshot-persist"
+						} else if reApplyCmd.MatchString(fn) && acc[len(acc)-1] != "snapshot-persist" {
+							acc[len(acc)-1] = fn
 						}
 					}
 				}
